@@ -50,6 +50,11 @@ type ProjectRunner struct {
 	processStateLocks map[string]*procStateLocks
 	runProcMutex      sync.Mutex
 	startMutex        sync.Mutex
+	// isStartingUp is set while Run() walks the run order it computed;
+	// requests that restructure the project (scale, update) wait for it to
+	// finish. Guarded by startMutex, announced through startUpDone.
+	isStartingUp      bool
+	startUpDone       *sync.Cond
 	shutDownMutex     sync.Mutex
 	isShuttingDown    bool
 	runningProcesses  map[string]*Process
@@ -133,6 +138,14 @@ func (p *ProjectRunner) Run() error {
 		p.doneProcesses = make(map[string]*Process)
 	}
 	p.doneProcMutex.Unlock()
+	// the run order is a snapshot: until it has been walked, the set of
+	// configured processes must not change under it
+	p.startMutex.Lock()
+	if p.startUpDone == nil {
+		p.startUpDone = sync.NewCond(&p.startMutex)
+	}
+	p.isStartingUp = true
+	p.startMutex.Unlock()
 	runOrder := []types.ProcessConfig{}
 	p.procConfMutex.Lock()
 	err := p.project.WithProcesses([]string{}, func(process types.ProcessConfig) error {
@@ -144,6 +157,7 @@ func (p *ProjectRunner) Run() error {
 	})
 	p.procConfMutex.Unlock()
 	if err != nil {
+		p.startUpFinished()
 		return fmt.Errorf("failed to build project run order: %e", err)
 	}
 	var nameOrder []string
@@ -181,12 +195,29 @@ func (p *ProjectRunner) Run() error {
 		p.shutDownMutex.Unlock()
 		p.startMutex.Unlock()
 	}
+	p.startUpFinished()
 	p.waitForProcesses()
 	log.Info().Msg("Project completed")
 	if p.exitCode != 0 {
 		err = &ExitError{p.exitCode}
 	}
 	return err
+}
+
+func (p *ProjectRunner) startUpFinished() {
+	p.startMutex.Lock()
+	defer p.startMutex.Unlock()
+	if p.isStartingUp {
+		p.isStartingUp = false
+		p.startUpDone.Broadcast()
+	}
+}
+
+// waitForStartUp is called with startMutex held
+func (p *ProjectRunner) waitForStartUp() {
+	for p.isStartingUp {
+		p.startUpDone.Wait()
+	}
 }
 
 func (p *ProjectRunner) runProcess(config *types.ProcessConfig) {
@@ -826,6 +857,7 @@ func (p *ProjectRunner) ScaleProcess(name string, scale int) error {
 	// requests that create or remove process instances are served one at a time
 	p.startMutex.Lock()
 	defer p.startMutex.Unlock()
+	p.waitForStartUp()
 	return p.scaleProcess(name, scale)
 }
 
@@ -1154,6 +1186,7 @@ func (p *ProjectRunner) UpdateProject(project *types.Project) (map[string]string
 	verifYield("update.enter", "")
 	p.startMutex.Lock()
 	defer p.startMutex.Unlock()
+	p.waitForStartUp()
 	return p.updateProject(project)
 }
 
@@ -1237,6 +1270,7 @@ func (p *ProjectRunner) ReloadProject() (map[string]string, error) {
 func (p *ProjectRunner) UpdateProcess(updated *types.ProcessConfig) error {
 	p.startMutex.Lock()
 	defer p.startMutex.Unlock()
+	p.waitForStartUp()
 	return p.updateProcess(updated)
 }
 
